@@ -27,6 +27,8 @@ WEAK = {
     "RejectSendersIgnored": "NeverReused",
     "DupOverwrites": "AsRecorded",
     "RejectNotBlacklisted": "NeverReused",
+    "FormatNotBlacklisted": "NeverReused",
+    "NoSyncerLevelCheck": "NeverReused",
     "LateChunkFromRejectedSender": "NeverReused",
 }
 
@@ -57,6 +59,8 @@ def act_to_step(a, k):
         return {"op": "Timeout"}
     if n in ("FetcherAllocate", "StaleFetch"):
         return {"op": "FetcherAllocate"}
+    if n == "RequestChunk":
+        return {"op": "Request", "i": a["i"], "p": a["p"]}
     return None
 
 
@@ -154,7 +158,7 @@ def build(ctx):
     """Two test binaries: the tree as it is (mode F), and the tree with the chunk timeout
     constant of syncer.go shortened (mode D: the Timeout step must fire in milliseconds).
     The only line changed is the value of `chunkTimeout`."""
-    plain = ctx.go_build_test("statesync", ["zz_verif_c14_test.go"], name="c14_plain")
+    plain = ctx.go_build_test("statesync", ["zz_verif_c14_test.go", "zz_verif_c14sp_test.go"], name="c14_plain")
     src = os.path.join(ctx.repo, "statesync", "syncer.go")
     fast = plain
     patched = False
@@ -313,16 +317,28 @@ def run(ctx, skip_exhaustive=False):
     if nfree:
         _d, rows_f, sum_f = run_harness(ctx, plain, {"scheds": [], "random_d": 0, "free_f": nfree, "par": 8}, "f")
 
+    # the real lightClientStateProvider over a real light client (mode P lines)
+    out_p = ctx.subdir("c14-out-p")
+    rc_p, txt_p = ctx.run_test(plain, "^TestVerifC14SP$", {"VERIF_OUT": out_p}, timeout=900, label="sp")
+    if rc_p != 0:
+        ctx.save_log("harness-sp", txt_p)
+        raise Undecided("C14 state-provider harness failed (rc=%d): %s" % (rc_p, txt_p[-1500:]))
+    rows_p = core.read_ndjson(os.path.join(out_p, "p.ndjson"))
+
     # ---- 7. trace validation (TLC on observed behaviour)
     vd = core.validate_traces(ctx, TRACE, rows_d, max_events=4000, label="d", timeout=1500)
     vf = core.validate_traces(ctx, TRACE, rows_f, max_events=4000, label="f", timeout=1500) if rows_f else \
         {"viol": [], "drift": [], "runs": 0, "events": 0}
 
+    vp = core.validate_traces(ctx, TRACE, rows_p, max_events=4000, label="p", timeout=900)
+
     # ---- 8. verdict, evidence
     verdict = core.Verdict(ctx)
     add_violations(verdict, vd)
     add_violations(verdict, vf)
-    drift = vd["drift"] + vf["drift"]
+    add_violations(verdict, vp)
+    drift = vd["drift"] + vf["drift"] + vp["drift"]
+    graph_cut = [i for i in (sum_d.get("skipped_ids") or []) if not i.startswith("attack/") and not i.startswith("sim/")]
 
     distinct = set()
     outcomes = {}
@@ -348,16 +364,21 @@ def run(ctx, skip_exhaustive=False):
     coverage = {
         "states": sum(r.distinct for r in ex) + sum(r.distinct for r, _n, _s in graph_res),
         "transitions": sum(r.generated for r in ex) + sum(r.generated for r, _n, _s in graph_res),
-        "traces_validated_against_impl": vd["runs"] + vf["runs"],
-        "evaluations": len(rows_d) + len(rows_f),
+        "traces_validated_against_impl": vd["runs"] + vf["runs"] + vp["runs"],
+        "evaluations": len(rows_d) + len(rows_f) + len(rows_p),
         "distinct_nontrivial": len(distinct),
         "rule": "every state of the act-augmented TMStateSync graphs (chunk / pool / fetcher facets, Atomic) reached by replaying "
                 "its BFS path on a real syncer+chunkQueue+snapshotPool (gated app and state provider, driver-called AddChunk / "
                 "Allocate / requestChunk); plus %d simulated behaviours of C14_sim (2 twin snapshots x 3 chunks x 2 peers, <= 6 "
                 "non-accept answers), the %d counterexamples of the weakened specs as attack schedules, and %d seeded adaptive "
-                "random runs; a step is distinct by (event, arguments, verdict, projected post-state)" % (nsimb, len(attack), nrandom),
+                "random runs, %d free-running runs with real fetcher goroutines, and every call x height x lie case of the real "
+                "lightClientStateProvider; a step is distinct by (event, arguments, verdict, projected post-state)" % (
+                    nsimb, len(attack), nrandom, nfree),
         "samples": [core.abridge(sample_run, 40)],
-        "exhaustive": True,
+        "exhaustive": not graph_cut,
+        "graph_schedules_cut_short": graph_cut[:10],
+        "state_provider_cases": sum(1 for r in rows_p if r.get("ev") == "SP"),
+        "state_provider_answers": sum(1 for r in rows_p if r.get("ev") == "SP" and r.get("ok")),
         "tlc_runs": ctx.tlc_stats,
         "graph_states_replayed": graph_states,
         "schedules_replayed": len(scheds),
@@ -378,8 +399,9 @@ def run(ctx, skip_exhaustive=False):
     }
     rc = verdict.finish()
     ctx.write_evidence(coverage, [
-        "the state provider is a mock whose answers stand for light-verified values (a function of the height, disjoint from "
-        "every value a snapshot peer can claim); the light client itself is C09",
+        "in the syncer runs the state provider is a mock whose answers stand for light-verified values (a function of the height, "
+        "disjoint from every value a snapshot peer can claim); the real lightClientStateProvider is driven separately over a real "
+        "light.Client with scripted providers and a local JSON-RPC server; the light client's own verification is C09",
         "mode D binary: the constant chunkTimeout of statesync/syncer.go is shortened at build time in a scratch copy "
         "(2 min -> 600 ms) so that the Timeout step can be replayed; nothing else differs from the tree",
         "fetcher goroutines are not started in mode D (ChunkFetchers = 0): the driver calls chunkQueue.Allocate and "
